@@ -29,7 +29,8 @@ LEVEL_NOTE = ("virtual clock (async_solipsism + time_machine); timer lateness is
               "additions, verdicts use sink-observed timestamps")
 RULE = ("seeded configurations x latency scripts x addition scripts; distinct = canonical case JSON; non-trivial = >=8 "
         "ticks observed and (a latency >= 1 period or a series added while running or a non-aligned creation phase)")
-REQUIRED_BUCKETS = ["align:none", "align:epoch", "align:past-nonmultiple", "align:future", "creation-exactly-aligned",
+REQUIRED_BUCKETS = ["clock-moves-on-between-readings-while-the-resampler-is-constructed",
+                    "align:none", "align:epoch", "align:past-nonmultiple", "align:future", "creation-exactly-aligned",
                     "creation-1us-off", "align_to-in-non-utc-timezone", "align_to-in-daylight-saving-zone", "resampling-function-yields-NaN-for-some-ticks", "latency>=1period", "latency-several-periods", "series-added-between-ticks",
                     "series-added-during-slow-tick", "catch-up-observed", "multi-series", "actor-tier",
                     "actor-tier:timer-late>=1period", "series-ended:SourceStoppedError",
@@ -101,7 +102,7 @@ def gen(rng: Any, tier: str, i: int) -> Any:
         zone = "Europe/Berlin"
         to_change = rng.choice([90, 300]) * 86400 + 3600 + rng.choice([0, 3600])  # seconds from the harness epoch
         start = round(start % period + (int(to_change / period) - rng.randint(3, 8)) * period, 6)
-    return {"nan_every": rng.choice([0, 0, 0, 3, 5]), "align_zone": zone, "align_tz_min": tz_min, "period": period, "align": align, "align_kind": ak, "start_offset": start, "max_age": 3.0, "init_len": 4,
+    return {"creeping_clock": rng.random() < 0.3, "nan_every": rng.choice([0, 0, 0, 3, 5]), "align_zone": zone, "align_tz_min": tz_min, "period": period, "align": align, "align_kind": ak, "start_offset": start, "max_age": 3.0, "init_len": 4,
             "max_len": 16, "ticks": ticks, "series": series, "lat": lat, "drain_periods": maxlat + 3, "phase": phase}
 
 
@@ -447,6 +448,8 @@ def check(case: dict[str, Any], rec: Any) -> None:
         rec.bucket("multi-series")
     r = resamp.run_case(c)
     rec.count("runs")
+    if r.get("clock_readings_during_construction", 0) >= 1:
+        rec.bucket("clock-moves-on-between-readings-while-the-resampler-is-constructed")
     created = r["created"]
     align_to = created if c["align"] is None else EPOCH + timedelta(seconds=c["align"])
     sinks = r["sinks"]
